@@ -82,6 +82,7 @@ func runC16(x *Ctx) {
 	}
 	x.C.Obl("C16.R2", "layout:Parse", x.pos(parse), "Parse stores the whole decoded multibase payload and the code read from its varint prefix", okP, dP)
 	keyBytes := "slice(conv[[]byte](recv.bytes),call[github.com/multiformats/go-varint.UvarintSize](conv[uint64](recv.code)),_,_)"
+	keyBytesAlt := "conv[[]byte](slice(recv.bytes,call[github.com/multiformats/go-varint.UvarintSize](conv[uint64](recv.code)),_,_))"
 	ssel, _, _ := x.E.Select(pub, paths.WantSuccess)
 	okU := len(ssel) > 0
 	dU := ""
@@ -89,13 +90,8 @@ func runC16(x *Ctx) {
 	tbl := pubKeyTable(x, pub)
 	for _, v := range ssel {
 		r := v.Results()[0]
-		fnT, arg := unmarshallerCall(r)
-		if fnT == nil {
-			okU = false
-			dU += "returns " + r.String() + "\n"
-			continue
-		}
-		byLookup := fnT.Op == "extract" && fnT.Args[0].Op == "lookup" && fnT.Args[0].Args[1].String() == "recv.code"
+		fnT, _ := unmarshallerCall(r)
+		byLookup := fnT != nil && fnT.Op == "extract" && fnT.Args[0].Op == "lookup" && fnT.Args[0].Args[1].String() == "recv.code"
 		bySwitch := false
 		for _, f := range v.Facts {
 			if f.Pol && f.Atom.Op == "eq" && (f.Atom.Args[0].String() == "recv.code" && f.Atom.Args[1].Op == "const" || f.Atom.Args[1].String() == "recv.code" && f.Atom.Args[0].Op == "const") {
@@ -104,11 +100,14 @@ func runC16(x *Ctx) {
 		}
 		if !byLookup && !bySwitch {
 			okU = false
-			dU += "unmarshaller selected by " + fnT.String() + "\n"
+			dU += "the unmarshaller is not selected by the stored code: " + r.String() + "\n"
 		}
-		if arg.String() != keyBytes {
+		// the key is made from the bytes after the multicodec prefix (whether the unmarshaller is called through
+		// the table or its body is spliced into the path): bytes[UvarintSize(code):], sliced before or after the
+		// conversion to []byte
+		if !flowsFrom(v.Path, r, 0, keyBytes, keyBytesAlt) {
 			okU = false
-			dU += "unmarshaller applied to " + arg.String() + "\n"
+			dU += "the key returned is not made from bytes[UvarintSize(code):]: " + r.String() + "\n"
 		}
 		keyTerms = append(keyTerms, r.String())
 	}
@@ -202,6 +201,22 @@ func runC16(x *Ctx) {
 				pt := ct.String()
 				vs, err := x.E.ConsistentPaths(g, paths.WantSuccess, atoms(map[string]bool{eqs(pt+"#0", "const(nil)"): true}), 0)
 				vs2, _ := x.E.ConsistentPaths(g, paths.WantSuccess, atoms(map[string]bool{eqs(pt+"#1", "const(nil)"): true}), 0)
+				through := func(in []paths.VPath) []paths.VPath { // only the paths on which this call is made
+					var out []paths.VPath
+					for _, v := range in {
+						made := false
+						for _, c2 := range v.Calls() {
+							if v.Term(c2).String() == pt {
+								made = true
+							}
+						}
+						if made {
+							out = append(out, v)
+						}
+					}
+					return out
+				}
+				vs, vs2 = through(vs), through(vs2)
 				// at least the x coordinate must be checked (y is nil iff x is nil)
 				x.C.Obl("C16.R5", "nil-point", x.posOf(c, g), "no key is returned when elliptic.UnmarshalCompressed returned a nil coordinate", err == nil && (len(vs) == 0 || len(vs2) == 0), renderPaths(vs, 2))
 			}
@@ -270,12 +285,29 @@ func didParseForm(x *Ctx, parse *ssa.Function) (rest, prefixAtom string) {
 // helper spliced into PubKey's paths). The value is the rendering of the unmarshaller.
 func pubKeyTable(x *Ctx, pub *ssa.Function) map[string]string {
 	out := map[string]string{}
-	for _, b := range pub.Blocks {
-		for _, in := range b.Instrs {
+	// a map literal, in PubKey itself or in a helper spliced into its paths
+	for _, p := range x.pathsQuiet(pub) {
+		p.InstrsIn(func(in ssa.Instruction, c *paths.Ctx) {
 			if mu, ok := in.(*ssa.MapUpdate); ok {
 				if k, ok := mu.Key.(*ssa.Const); ok {
-					out[k.Value.ExactString()] = paths.DetachedTerm(pub, mu.Value).String()
+					out[k.Value.ExactString()] = c.Term(mu.Value).String()
 				}
+			}
+		})
+	}
+	// or a package-level table indexed by the stored code
+	if len(out) == 0 {
+		for _, p := range x.pathsQuiet(pub) {
+			for _, f := range p.Facts {
+				f.Atom.Walk(func(t *paths.Term) {
+					if t.Op == "lookup" && len(t.Args) == 2 && t.Args[1].String() == "recv.code" && t.Args[0].Op == "load" && t.Args[0].Args[0].Op == "global" {
+						if g, ok := t.Args[0].Args[0].Val.(*ssa.Global); ok {
+							for k, v := range globalMapLiteral(x, g) {
+								out[k] = v
+							}
+						}
+					}
+				})
 			}
 		}
 	}
@@ -403,4 +435,63 @@ func didCodeTables(x *Ctx, parse, pub, from, cfc *ssa.Function) (emitted, parsed
 		}
 	}
 	return
+}
+
+// flowsFrom tells whether term t is made from one of the given sub-terms, looking through records the path
+// builds in local cells (a struct literal handed on by address).
+func flowsFrom(p *paths.Path, t *paths.Term, depth int, needles ...string) bool {
+	for _, n := range needles {
+		if t.Contains(n) {
+			return true
+		}
+	}
+	if depth > 3 {
+		return false
+	}
+	found := false
+	t.Walk(func(s *paths.Term) {
+		if found || s.Op != "alloc" {
+			return
+		}
+		if cell := paths.CellOf(s); cell != nil {
+			for _, fv := range p.FieldStores(cell) {
+				if flowsFrom(p, fv, depth+1, needles...) {
+					found = true
+				}
+			}
+		}
+	})
+	return found
+}
+
+// globalMapLiteral reads the constant keys (and the rendering of the values) of a package-level map variable
+// initialised by a map literal in the package initialiser.
+func globalMapLiteral(x *Ctx, g *ssa.Global) map[string]string {
+	out := map[string]string{}
+	init := g.Pkg.Func("init")
+	if init == nil {
+		return out
+	}
+	// the map stored into g
+	var m ssa.Value
+	for _, b := range init.Blocks {
+		for _, in := range b.Instrs {
+			if st, ok := in.(*ssa.Store); ok && st.Addr == ssa.Value(g) {
+				m = st.Val
+			}
+		}
+	}
+	if m == nil {
+		return out
+	}
+	for _, b := range init.Blocks {
+		for _, in := range b.Instrs {
+			if mu, ok := in.(*ssa.MapUpdate); ok && mu.Map == m {
+				if k, ok := mu.Key.(*ssa.Const); ok {
+					out[k.Value.ExactString()] = paths.DetachedTerm(init, mu.Value).String()
+				}
+			}
+		}
+	}
+	return out
 }
